@@ -323,7 +323,10 @@ class AllocCheck:
             "regions are established by the constructor and preserved by every operation; two induction-step lemmas close the "
             "argument for all finite histories. "
             + ("C12 adds first-fit (loop invariant: no earlier chunk fits), growth-only-if-needed, termination variant of the retry, "
-               "free-never-raises (safety obligations) and coalescing (WF non-touching + freed region contained in one chunk)."
+               "free-never-raises (safety obligations), coalescing (WF non-touching + freed region contained in one chunk) and leak-freedom "
+               "(allocate: every old free chunk stays covered by one chunk except < alignment padding bytes before the result and the bytes handed out; "
+               "free: every old chunk and the freed region are covered afterwards; grow: free bytes = old free bytes + exactly the added range). "
+               "get_free() as a sum and CPython's recursion limit are decided by the bounded part only."
                if prop == "C12" else
                "C04 clauses: result aligned, in bounds, disjoint from every live region and every free chunk, bytes of [0,old capacity) preserved across growth.")
         )
